@@ -111,6 +111,13 @@ def gen_cases(tier, seed):
     for N in range(1, top + 1):
         axis = [10 * i for i in range(1, N + 1)]
         labels = [-1] + [5 * j for j in range(1, 2 * N + 2)]
+        # the same axis shifted so that the label 0 (and negative labels) lies on it: non-time dimension only
+        off = 10 * rng.randint(1, N)
+        for n, b, e, m in rng.sample([(n, b, e, m) for n in range(1, N + 2) for b in labels for e in labels for m in METHODS], 12 if quick else 80):
+            sh = lambda v: v if v == -1 else v - off  # noqa: E731
+            if -1 in (sh(b), sh(e)) and (b != -1 and sh(b) == -1 or e != -1 and sh(e) == -1):
+                continue
+            add(mk([a - off for a in axis], n, sh(b), sh(e), m, rng.choice(["sum", "mean", "full"]), rng, dim="band"))
         combos = [(n, b, e, m) for n in range(1, N + 2) for b in labels for e in labels for m in METHODS]
         if N > full_to:
             combos = rng.sample(combos, 250 if quick else 2500)
